@@ -133,7 +133,7 @@ def _layout_jobs(tier, seed):
         if tier == "quick" and t > 3:
             continue
         if t <= 2:
-            jobs.append(dict(L=L, W=W, first=None, _cost=8 ** t))
+            jobs.append(dict(L=L, W=W, first=None, two_step=True, _cost=8 ** t))
         else:
             for first in range(8):
                 for second in (range(8) if t == 4 and tier != "quick" else [None]):
@@ -191,7 +191,7 @@ def _board(sp, L, W, first, second, tied_loose=False):
               "isomorphic (owners, rewards, finals, action labels, probabilities) to the reference Roborta game of the board; "
               "each passes the real check_game/init_states, every state has a transition, chance probabilities are positive and "
               "sum to 1, the only final state is the absorbing winning state, the losing state is absorbing")
-def gen_layout(sp, L, W, first=None, second=None, tied_loose=False):
+def gen_layout(sp, L, W, first=None, second=None, tied_loose=False, two_step=False):
     gen, cr, _ = mods()
     std = repo.std()
     moves, loose, rewards = _board(sp, L, W, first, second, tied_loose)
@@ -245,6 +245,20 @@ def gen_layout(sp, L, W, first=None, second=None, tied_loose=False):
         sg.check_game()
         sl = sg.init_states()
         sp.prove(len(sl) == n, "game %s: init_states built %d of %d states" % (variant, len(sl), n))
+    if two_step:
+        # the caller edits the same board objects in place and generates again (same process, same list identities)
+        moves[0][0] = (moves[0][0] + 1 + sp.choice("edit", 3)) % 4
+        loose[L - 1][W - 1] = 1 - loose[L - 1][W - 1]
+        FakeFile.store, FakeFile.opened = {}, []
+        if sp.mode != "native":
+            sp.repr_registry = {}
+        gen.write_robots("inputs/mem.py", L, W, moves, rewards, loose, pt, pr, pl)
+        if sp.mode != "native":
+            cr.__dict__.update(sp.repr_registry)
+        d2 = cr.read_dict_from_file("inputs/mem.py")
+        sp.repr_registry = None
+        for variant in "abc":
+            check_iso(sp, d2["game_" + variant], ref_game(variant, L, W, moves, loose, rewards, pt, pr, pl), variant + " (second write after an in-place edit)")
 
 
 @harness("gen.manual_layout", props=["C11", "C08"], jobs=lambda tier, seed: [dict(L=L, W=W) for (L, W) in ((1, 1), (1, 2), (2, 1))],
